@@ -31,9 +31,8 @@ MNext ==
 MSpec == MInit /\ [][MNext]_mvars
 
 TypeOK == /\ st \in {"idle", "running", "returned"}
-          /\ \A e1, e2 \in evalOf : e1.p = e2.p => e1 = e2
-          /\ \A e1, e2 \in consAt : e1.p = e2.p => e1 = e2
-          /\ nEvals >= Cardinality(evalOf)
+          /\ Len(evalOf) <= Cardinality(Points) /\ Len(consAt) <= Cardinality(Points)
+          /\ nEvals >= Cardinality({p \in 1..Len(evalOf) : evalOf[p] # NoEval})
 (* a return without error is justified, feasible and leaves the start alone *)
 JustifiedReturn == (st = "returned" /\ ~ret.err) =>
                      /\ ret.startOK /\ (cfg.hasCons => ret.consOK)
@@ -48,5 +47,5 @@ HookStopHonoured == [][(hookStopped /\ st = "running") => (st' = "returned" /\ U
 (* (T): nothing is observed after the return until a new call begins *)
 QuietAfterReturn == [][st = "returned" => (st' = "running" /\ nEvals' = 0 /\ nHooks' = 0)]_mvars
 (* (H): hooks only ever see evaluated points when the routine has a user objective *)
-HooksSeeEvaluated == [][(nHooks' = nHooks + 1 /\ cfg.hookKind # "args") => evalOf # {}]_mvars
+HooksSeeEvaluated == [][(nHooks' = nHooks + 1 /\ cfg.hookKind # "args") => evalOf # <<>>]_mvars
 =============================================================================
